@@ -18,7 +18,7 @@ _INFL_NOTE = ("Trusted: TLC, the probe construction (CustomSD subclass with an e
 
 CHECKS = {
     "C01": {
-        "text": "Influence.tla models the TEMPO row algorithm and the PT-TEMPO column algorithm one action per code branch and states the documented meaning of dkmax/tcut/add_correlation_time as a set of influence cells; TLC checks algorithm = documentation on every state for all (N, dkmax, add_correlation_time) in the bound and emits the expected integer coefficient vectors, which the real Tempo / PtTempo+compute_dynamics must reproduce for every matrix element at every step (exact probe bath, commuting Hamiltonian), together with the exact sequence of 2D-integral requests.",
+        "text": "Influence.tla models the TEMPO row algorithm and the PT-TEMPO column algorithm one action per code branch and states the documented meaning of dkmax/tcut/add_correlation_time as a set of influence cells; TLC checks algorithm = documentation on every state for all (N, dkmax, add_correlation_time) in the bound and emits the expected integer coefficient vectors, which the real Tempo / PtTempo+compute_dynamics must reproduce for every matrix element at every step (exact probe bath, commuting Hamiltonian), together with the exact sequence of 2D-integral requests; dkmax and tcut (binary and decimal dt), the library's CustomCorrelations quadrature (polynomial correlation function) and - as a numerical cross-check only - real spectral densities of every cutoff type against an independent quadrature.",
         "note": _INFL_NOTE,
         "technique": "TLA+ spec + TLC exhaustive over memory settings; spec->code replay with exact probe bath; request-trace comparison",
     },
@@ -68,7 +68,7 @@ CHECKS = {
         "technique": "TLA+ spec + TLC enumeration of process-tensor shapes; export-trace comparison; spec->code round-trip replay",
     },
     "C17": {
-        "text": "PTFile.tla: abstract HDF5 content updated per file operation, write-back possible at any time, crash after any operation, reader classification error/warn/clean. The spec is driven by the operation trace recorded from the real writer (export(), file-backed PT-TEMPO): TLC validates the trace (every operation legal, flag raised before any data operation, closed file clean and complete, whole trace consumed) and explores every crash x flush point (CrashNeverClean, CleanCloseComplete; the identity-test deviation must violate). The same crash x flush points are realised with child processes that flush and os._exit at the chosen operations; the surviving file is imported with both import types and must be classified within the set the spec allows and never clean (except the unavoidable final window where the content is complete). Mode matrix and remove() from the spec's ModeTable.",
+        "text": "PTFile.tla: abstract HDF5 content updated per file operation, write-back possible at any time, crash after any operation, reader classification error/warn/clean. The spec is driven by the operation trace recorded from the real writer (export(), file-backed PT-TEMPO): TLC validates the trace (every operation legal, flag raised before any data operation, closed file clean and complete, whole trace consumed) and explores every crash x flush point (CrashNeverClean, CleanCloseComplete; the identity-test deviation must violate). The same crash x flush points are realised with child processes that flush and die at the chosen operations - killed (os._exit) or interrupted by an exception that unwinds the stack (interpreter shutdown flushes HDF5) -; the surviving file is imported with both import types and must be classified within the set the spec allows and never clean (except the unavoidable final window where the content is complete). Mode matrix and remove() from the spec's ModeTable.",
         "note": "Trusted: TLC, h5py proxy, os._exit as process death, explicit flush as the write-back point (the spec allows every prefix between last flush and crash, and 'error').",
         "technique": "TLA+ crash/write-back model driven by recorded traces (code->spec trace validation with TLC) + crash-point replay in child processes",
     },
